@@ -10,7 +10,7 @@ is a parameter.
 -/
 namespace Hio.Namer
 
-inductive Exn | namerError | keyError
+inductive Exn | namerError | keyError | typeError
 deriving Repr, DecidableEq
 
 abbrev Map (κ υ : Type) := List (κ × υ)
@@ -40,10 +40,12 @@ def del (m : Map κ υ) (k : κ) : Except Exn (Map κ υ) :=
 def keys (m : Map κ υ) : List κ := m.map Prod.fst
 end Map
 
-/-- Python truthiness of a key (`not name`) -/
+/-- Python truthiness of a key (`not name`) and whether it can be hashed at all: every dict operation
+(`k in d`, `d.get(k)`, `d[k]`, `d[k] = v`, `del d[k]`) on an unhashable key (a list, a dict) raises `TypeError` -/
 class Truthy (α : Type) where
   truthy : α → Bool
-export Truthy (truthy)
+  hashable : α → Bool
+export Truthy (truthy hashable)
 
 structure State (N A : Type) where
   n2a : Map N A     -- `_addrByName`
@@ -81,22 +83,26 @@ def delBoth (s : State N A) (n : N) (a : A) : State N A × Except Exn (Out N A) 
 
 def add (s : State N A) (n : N) (a : A) : State N A × Except Exn (Out N A) :=
   if !truthy n || !truthy a then (s, .error .namerError)
+  else if !hashable n then (s, .error .typeError)             -- `name in self._addrByName`
   else match s.n2a.get n with
     | some a' => if a = a' then (s, .ok (.bool false)) else (s, .error .namerError)
     | none =>
-      match s.a2n.get a with
+      if !hashable a then (s, .error .typeError)              -- `addr in self._nameByAddr`
+      else match s.a2n.get a with
       | some n' => if n = n' then (s, .ok (.bool false)) else (s, .error .namerError)
       | none => (⟨s.n2a.set n a, s.a2n.set a n⟩, .ok (.bool true))
 
 def rem (s : State N A) (n : N) (a : A) : State N A × Except Exn (Out N A) :=
   if truthy n then
-    match s.n2a.get n with
+    if !hashable n then (s, .error .typeError)                 -- `name not in self._addrByName`
+    else match s.n2a.get n with
     | none => (s, .ok (.bool false))
     | some a' =>
       let a := if !truthy a then a' else a
-      if a ≠ a' then (s, .ok (.bool false)) else delBoth s n a
+      if a ≠ a' then (s, .ok (.bool false)) else delBoth s n a   -- `!=` only: the given addr is never hashed here
   else if truthy a then
-    match s.a2n.get a with
+    if !hashable a then (s, .error .typeError)                 -- `addr not in self._nameByAddr`
+    else match s.a2n.get a with
     | none => (s, .ok (.bool false))
     | some n' =>
       -- `if not name: name = _nameByAddr[addr]` always fires here (name is falsy)
@@ -105,10 +111,12 @@ def rem (s : State N A) (n : N) (a : A) : State N A × Except Exn (Out N A) :=
 
 def chgAddr (s : State N A) (n : N) (a : A) : State N A × Except Exn (Out N A) :=
   if !truthy n || !truthy a then (s, .error .namerError)
+  else if !hashable n then (s, .error .typeError)             -- `name not in self._addrByName`
   else match s.n2a.get n with
     | none => (s, .ok (.bool false))
     | some old =>
       if a = old then (s, .ok (.bool false))
+      else if !hashable a then (s, .error .typeError)         -- `addr in self._nameByAddr`
       else match s.a2n.get a with
         | some _ => (s, .error .namerError)
         | none =>
@@ -119,10 +127,12 @@ def chgAddr (s : State N A) (n : N) (a : A) : State N A × Except Exn (Out N A) 
 
 def chgName (s : State N A) (a : A) (n : N) : State N A × Except Exn (Out N A) :=
   if !truthy n || !truthy a then (s, .error .namerError)
+  else if !hashable a then (s, .error .typeError)             -- `addr not in self._nameByAddr`
   else match s.a2n.get a with
     | none => (s, .ok (.bool false))
     | some old =>
       if n = old then (s, .ok (.bool false))
+      else if !hashable n then (s, .error .typeError)         -- `name in self._addrByName`
       else match s.n2a.get n with
         | some _ => (s, .error .namerError)
         | none =>
@@ -137,8 +147,8 @@ def step (s : State N A) : Op N A → State N A × Except Exn (Out N A)
   | .chgAddr n a => chgAddr s n a
   | .chgName a n => chgName s a n
   | .clear => (empty, .ok .unit)
-  | .getAddr n => (s, .ok (.addr (s.n2a.get n)))
-  | .getName a => (s, .ok (.name (s.a2n.get a)))
+  | .getAddr n => if !hashable n then (s, .error .typeError) else (s, .ok (.addr (s.n2a.get n)))
+  | .getName a => if !hashable a then (s, .error .typeError) else (s, .ok (.name (s.a2n.get a)))
   | .count => (s, .ok (.nat s.n2a.length))
 
 /-- state after a history (results dropped; a raised exception does not stop the caller from going on) -/
